@@ -798,9 +798,8 @@ pub fn run_reconnect(args: &Args) -> (u64, u64) {
             let mut t = base.clone();
             t[pos] = specials[(pos * 5 + 13) % specials.len()];
             names.push(t.iter().collect());
-            if args.tier == "thorough" {
-                for sp in [0usize, 1, 2, 3] { let mut t = base.clone(); t[pos] = specials[sp]; names.push(t.iter().collect()); }
-            }
+            // { | } ~ (the characters just above 'z') at every position
+            for sp in [0usize, 1, 2, 3] { let mut t = base.clone(); t[pos] = specials[sp]; names.push(t.iter().collect()); }
         }
         names.push("{|}~".to_string());
         names.push("z{z|z}z~z".to_string());
